@@ -92,7 +92,7 @@ impl OutputFormat for IceDraw {
                 }
 
                 // fake repeat
-                if ch == 1 && attr == 0 && rle_count == 1 {
+                if ch == 1 && attr == 0 && rle_count == 1 && !options.compress {
                     result.extend([1, 0, 1, 0]);
                 }
                 result.push(ch as u8);
